@@ -752,7 +752,7 @@ static void convert_universal_chars(char *p) {
   while (*p) {
     if (startswith(p, "\\u")) {
       uint32_t c = read_universal_char(p + 2, 4);
-      if (c) {
+      if (c && c != '\n') {
         p += 6;
         q += encode_utf8(q, c);
       } else {
@@ -760,7 +760,7 @@ static void convert_universal_chars(char *p) {
       }
     } else if (startswith(p, "\\U")) {
       uint32_t c = read_universal_char(p + 2, 8);
-      if (c) {
+      if (c && c != '\n') {
         p += 10;
         q += encode_utf8(q, c);
       } else {
